@@ -17,6 +17,8 @@ ALLOWED_OPS = set('+ - * / // % @ << >> & | ^ ~ ( ) **'.split())
 
 def classify(text):
     """None when text is a closed literal expression, else the reason"""
+    # a lone surrogate is ordinary string content for this purpose (the real eval of such a text fails before anything runs and is retried with escapes)
+    text = ''.join('x' if '\ud800' <= c <= '\udfff' else c for c in text)
     try:
         toks = list(tokenize.generate_tokens(io.StringIO(text).readline))
     except Exception as e:   # noqa
@@ -48,6 +50,13 @@ def crafted_strings(r, tier):
                 out.append('x' + pre + q + tail + q)
         out.append(q * 3 + '+str(1)+' + q * 3)
         out.append(q * 3 + '+str(open("m","w").close())+' + q * 3 + ' {value}')
+    # a lone surrogate (first eval fails, a retry path runs) followed by a quote and code
+    for q in ("'", '"'):
+        for sur in ('\udc80', '\ud800x', 'a\udfff'):
+            out.append(sur + q + "+str(open('m','w').close())+" + q)
+            out.append(sur + q + '+__import__("os").getcwd()#')
+            out.append(sur + '\\' + q + '+str(1)#')
+            out.append(sur + '\n' + q + '+str(1)+' + q)
     n = 60 if tier == 'quick' else 2000
     for _ in range(n):
         out.append(''.join(r.choice(ALPHABET) for _ in range(r.randint(1, 9))))
@@ -72,6 +81,8 @@ def programs(r, tier):
         try:
             b = s.encode('latin-1')
             progs.append('v = 1\nw = f"{' + repr(b) + '}{v}"\n')
+            # the same bytes as a plain constant (ordinary expression printer), alone and next to a string
+            progs.append('v = 1\nplain = ' + repr(b) + '\npair = (' + repr(b) + ', ' + lit + ')\n')
         except UnicodeEncodeError:
             pass
         progs.append('v = 2\nq = f' + repr(s.replace('{', '').replace('}', '').replace('\ud800', '?').replace('\0', '')) [0:] .replace('\\x00', '') + '\n' if False else 'v = 2\n')
@@ -146,6 +157,11 @@ def monitor(res, progs, tier):
                 if ev[0] == 'compile':
                     if ev[2] == '<string>':
                         last_string_compile = ev[1]
+                        # every text handed to eval()/compile() is classified, whether or not it then compiles and runs
+                        why0 = None if ev[1] is None else classify(ev[1])
+                        if why0:
+                            res.add_violation('c12-eval-not-closed-literal', 'a text that is not a closed literal expression (%s) was handed to eval()/compile(): %r' % (why0, ev[1][:120]),
+                                              {'source': case['source'], 'options': case['options'], 'evaluated': ev[1]})
                 elif ev[0] == 'exec':
                     n_eval += 1
                     if ev[1] != '<string>':
